@@ -22,7 +22,7 @@ RULE = ("cases: (DAG, operation, count, seed).  distinct = distinct tuple; non-t
         ' Also: array presentations, minute weights, numpy signed / unsigned counts, relabelled chains p=5..16 x 12 seeds, near-complete DAGs on 35-40 nodes, repeat after the caller overwrote the result.')
 ASSUMPTIONS = ["results are judged on their non-zero pattern (both functions document returning a 0/1 graph)"]
 EXHAUSTIVE = {"quick": True, "thorough": True}
-SOFT_LIMIT = {"quick": 240, "thorough": 1500}
+SOFT_LIMIT = {"quick": 1200, "thorough": 5400}      # generous wall-clock watchdogs (a loaded machine must not cut a workload short); normal run times are in the evidence
 REQUIRED_FUNCS = ["sempler/utils.py:add_edges", "sempler/utils.py:remove_edges"]
 REQUIRED_COUNTERS = {"quick": {"add:feasible": 2000, "add:infeasible": 300, "remove:feasible": 2000, "remove:infeasible": 300, "add:to-complete": 100, "remove:all": 100},
                      "thorough": {"add:feasible": 20000, "add:infeasible": 3000, "remove:feasible": 20000, "remove:infeasible": 3000, "add:to-complete": 100, "remove:all": 100}}
